@@ -20,8 +20,11 @@ def gen_state(rng, scale=None, default_bias=0.4):
     beta = BETA0 * k
     kappa = 1e-4 if rng.random() < 0.6 else logu(rng, 1e-8, 1e-2)
     tau = rng.choice([0.0, 1e-9 * beta, beta / 50.0, beta / 50.0, 3.0 * beta, rng.uniform(0, 2) * beta])
-    return {"mu": 25.0 * k, "sigma": 25.0 / 3.0 * k, "beta": beta, "kappa": kappa, "tau": tau,
-            "gamma": rng.choice(GAMMAS), "limit": rng.random() < 0.3}
+    st = {"mu": 25.0 * k, "sigma": 25.0 / 3.0 * k, "beta": beta, "kappa": kappa, "tau": tau,
+          "gamma": rng.choice(GAMMAS), "limit": rng.random() < 0.3}
+    if rng.random() < 0.12:
+        st["ctor"] = "setattr"      # parameters assigned after construction instead of passed to the constructor
+    return st
 
 
 def default_state():
@@ -150,7 +153,7 @@ def random_weak_order(rng, n):
     return [dense[x] for x in v]
 
 
-ENCODINGS = ["dense", "ints", "neg", "floats", "mixed", "bools", "zeros", "big", "huge", "negzero", "onebased"]
+ENCODINGS = ["dense", "ints", "neg", "floats", "mixed", "bools", "zeros", "big", "huge", "negzero", "onebased", "bigmixed"]
 
 
 def encode_order(rng, order, enc=None):
@@ -188,6 +191,16 @@ def encode_order(rng, order, enc=None):
     elif enc == "big":
         base = rng.choice([2 ** 53, -2 ** 53, 2 ** 60, 10 ** 18, -10 ** 18])
         vals = [("I", base + i) for i in range(k)]
+    elif enc == "bigmixed":
+        # ints and floats interleaved just above 2^53, where a float cannot tell neighbouring ints apart:
+        # 2^53 (float), 2^53 + 1 (int), 2^53 + 2 (float), ... compared exactly they are strictly increasing
+        sgn = rng.choice([1, -1])
+        base = 2 ** 53 + 2 * rng.randrange(0, 1000)
+        raw = []
+        for i in range(k):
+            x = base + i
+            raw.append(("F", float(x)) if (x % 2 == 0 and rng.random() < 0.7) else ("I", x))
+        vals = raw if sgn > 0 else [((v[0], -v[1])) for v in reversed(raw)]
     elif enc == "huge":
         xs = sorted(rng.sample([-1e300, -1e18, -2.5e-300, 5e-324, 1e-5, 3.0, 2.0 ** 53, 1e18, 1e300,
                                 1.7976931348623157e308], k)) if k <= 10 else None
@@ -253,6 +266,17 @@ def gen_predict_case(rng, op=None, kind=None, scale=None):
     teams = rating_vals(kind, nums, rng)
     c = {"op": op or rng.choice(["pwin", "pdraw", "prank"]), "kind": kind, "st": st, "args": [teams]}
     if rng.random() < 0.3:
+        c["share"] = True
+    if rng.random() < 0.12 and len(teams[1]) >= 2:
+        # the very same team (same players, same list object) entered at two or more positions
+        tl = list(teams[1])
+        a = rng.randrange(len(tl))
+        for b in range(len(tl)):
+            if b != a and rng.random() < 0.5:
+                tl[b] = tl[a]
+        if all(t is tl[a] for t in tl) and len(tl) > 2:
+            pass
+        c["args"] = [("L", tl)]
         c["share"] = True
     return c
 
